@@ -586,6 +586,7 @@ TRANSLATED = {
     "C15": ["tr_welford.py -> Gen/GenWelford.v (StatisticProperties.add_sample over an abstract arithmetic signature)"],
     "C16": ["tr_facts.py -> Gen/GenFactsKill.v (kill_cond, kill_then_raise, nokill_raises, pids_before_kill, collect_recursive)",
             "tr_termination.py -> Gen/GenTermination.v (classification of exit status -9)"],
+    "C18": ["tr_facts.py -> Gen/GenFactsCodespeed.v (codespeed_fields, codespeed_failed_value)"],
     "C20": ["tr_facts.py -> Gen/GenFactsSession.v (restore_in_finally)",
             "tr_facts.py -> Gen/GenFactsDenoise.v (shielding_reports_false_or_range, nice_reports_boolean, report_built_from_them, client_reads_report)"],
 }
